@@ -120,6 +120,10 @@ def c04(rep, env):
         MI.check_plumbing(rep, fb, crates={"ctr"})
         MI.check_enc_only(rep, fb, crates={"ctr"})
         IR.check_clone_bodies(rep, fb, crates={"ctr"})
+        SM.check_ctr_aliases(rep, fb)
+        # "block index i" is also reached by seeking: the position setter/getter of each flavour
+        only(rep, lambda r: SM.check_ctr_remaining(r, fb), pre("pos."))
+        only(rep, lambda r: SM.check_ctr_core(r, fb), pre("pos."))
     per_config(rep, env, f)
 
 
@@ -194,6 +198,7 @@ def c10(rep, env):
         only(rep, lambda r: SM.check_belt(r, fb, parts=("pos", "def", "par")), pre("pos.", "belt.ks.advance", "belt.ks.block", "par.closed-form.state"))
         # a clone must report (and seek relative to) the same position as the original
         IR.check_clone_bodies(rep, fb, crates={"ctr", "belt_ctr"})
+        SM.check_ctr_aliases(rep, fb)
     per_config(rep, env, f)
 
 
@@ -208,6 +213,7 @@ def c11(rep, env):
         CR.check_wrapper_checks(rep, fb)
         # a clone that forgets how many blocks were used would wrap silently
         IR.check_clone_bodies(rep, fb, crates={"ctr", "belt_ctr"})
+        SM.check_ctr_aliases(rep, fb)
     per_config(rep, env, f)
 
 
@@ -246,6 +252,7 @@ def c14(rep, env):
         BC.check_init(rep, fb)
         MI.check_ofb_one_backend(rep, fb)
         MI.check_aliases(rep, fb)
+        SM.check_ctr_aliases(rep, fb)
         MI.check_no_own_keyinit(rep, fb)
         MI.check_overrides(rep, fb)
         # "a core driven block-wise equals the byte-level cipher": the wrapper mixes single-block and
@@ -297,7 +304,7 @@ REGISTRY = {
     "C01": {"run": c01, "level": "proof", "floors": {"inv.step.out": 6, "inv.cts.roundtrip": 36, "inv.buf.out": 2, "inv.stream": 5}},
     "C02": {"run": c02, "level": "proof", "floors": {"def.out": 6, "def.state": 8, "par.closed-form": 2, "plumb.state-borrowed": 6}},
     "C03": {"run": c03, "level": "proof", "floors": {"def.out": 7, "def.state": 7, "par.closed-form": 2, "enc-only.kernel": 8, "buf.def": 12}},
-    "C04": {"run": c04, "level": "proof", "floors": {"ctr.layout": 6, "ctr.ks.block": 6, "par.closed-form": 12, "ctr.resume": 6}},
+    "C04": {"run": c04, "level": "proof", "floors": {"ctr.layout": 6, "ctr.ks.block": 6, "par.closed-form": 12, "ctr.resume": 6, "ctr.alias": 6}},
     "C05": {"run": c05, "level": "proof", "floors": {"cts.layout": 72, "cts.gate.exact": 12, "helpers.one-block": 4, "cts.init": 6}},
     "C06": {"run": c06, "level": "proof", "floors": {"belt.init": 1, "belt.ks.block": 1, "par.closed-form": 2}},
     "C07": {"run": c07, "level": "proof", "floors": {"par.no-override": 11, "par.closed-form": 18, "helpers.par-group": 7}},
